@@ -261,21 +261,31 @@ func ToInteger(p Primary) Primary {
 	case *Integer:
 		return NewInteger(val.Raw())
 	case *Float:
-		if math.IsNaN(val.Raw()) || math.IsInf(val.Raw(), 0) {
-			return NewNull()
+		if i, ok := float64ToInt64(val.Raw()); ok {
+			return NewInteger(i)
 		}
-		return NewInteger(int64(val.Raw()))
 	case *String:
 		s := option.TrimSpace(val.Raw())
 		if i, e := strconv.ParseInt(s, 10, 64); e == nil {
 			return NewInteger(i)
 		}
 		if f, e := strconv.ParseFloat(s, 64); e == nil {
-			return NewInteger(int64(f))
+			if i, ok := float64ToInt64(f); ok {
+				return NewInteger(i)
+			}
 		}
 	}
 
 	return NewNull()
+}
+
+// float64ToInt64 truncates a float to an integer. NaN, the infinities and numbers outside the
+// range of int64 have no integer value.
+func float64ToInt64(f float64) (int64, bool) {
+	if math.IsNaN(f) || f < math.MinInt64 || math.MaxInt64 <= f {
+		return 0, false
+	}
+	return int64(f), true
 }
 
 func ToIntegerStrictly(p Primary) Primary {
